@@ -79,18 +79,18 @@ Fixpoint collect (l : list stmt) (ix : nat) (asg uses : dict) : dict * dict :=
   end.
 
 (* None = KeyError *)
-Definition lres := option (list warning).
-Definition bindw (a : lres) (f : list warning -> lres) : lres := match a with Some x => f x | None => None end.
+Definition wres := option (list warning).
+Definition bindw (a : wres) (f : list warning -> wres) : wres := match a with Some x => f x | None => None end.
 
 (* for k in keys: ws += body(k)   where body may raise *)
-Fixpoint for_keys (keys : list str) (body : str -> lres) : lres :=
+Fixpoint for_keys (keys : list str) (body : str -> wres) : wres :=
   match keys with
   | [] => Some []
   | k :: t => bindw (body k) (fun w1 => bindw (for_keys t body) (fun w2 => Some (w1 ++ w2)))
   end.
 
 (* `if v in uses and uses[v] <= assigns[v]: warn` for v in sorted(assigns.keys()), skipping names in [skip] *)
-Definition used_before (asg uses : dict) (skip : option (list str)) (mk : str -> nat -> nat -> warning) : lres :=
+Definition used_before (asg uses : dict) (skip : option (list str)) (mk : str -> nat -> nat -> warning) : wres :=
   for_keys (sorted_keys asg) (fun v =>
     if match skip with Some a => str_mem v a | None => false end then Some []
     else if d_has v uses then
@@ -101,7 +101,7 @@ Definition used_before (asg uses : dict) (skip : option (list str)) (mk : str ->
     else Some []).
 
 (* for k in sorted(d.keys()): if k not in other: warn(k, d[k]) *)
-Definition keys_not_in (d other : dict) (mk : str -> nat -> warning) : lres :=
+Definition keys_not_in (d other : dict) (mk : str -> nat -> warning) : wres :=
   for_keys (sorted_keys d) (fun k =>
     if d_has k other then Some []
     else match assoc k d with Some v => Some [mk k v] | None => None end).
@@ -131,7 +131,7 @@ Fixpoint floop (fname : str) (l : list stmt) (ix : nat) (ldef lused : dict) : li
   end.
 
 (* everything lint does for one function statement, after the redefinition test *)
-Definition lint_function (fname : str) (args : option (list str)) (body : list stmt) (ix : nat) : lres :=
+Definition lint_function (fname : str) (args : option (list str)) (body : list stmt) (ix : nat) : wres :=
   let '(asg, uses) := collect body 0 [] [] in
   bindw (used_before asg uses args (fun v u a => WVarUsedBefore v fname u a)) (fun w1 =>
   bindw (keys_not_in asg uses (fun v a => WUnusedVar v fname a)) (fun w2 =>
@@ -170,7 +170,7 @@ Fixpoint gloop (l : list stmt) (ix : nat) (fdef : list str) (ldef lused : dict) 
     end
   end.
 
-Definition lint_raw (s : script) : lres :=
+Definition lint_raw (s : script) : wres :=
   let w0 := match s with [] => [WEmpty] | _ => [] end in
   let '(asg, uses) := collect s 0 [] [] in
   bindw (used_before asg uses None WGlobalUsedBefore) (fun w1 =>
